@@ -46,7 +46,7 @@ Definition run_poly (A E : list (list float)) (b c d : list float) (pk : nat) (x
 '''
 
 
-SOLVE_LIMIT_S = 40
+SOLVE_LIMIT_S = 25
 
 
 class Timeout(Exception):
@@ -204,6 +204,8 @@ def run_impl(case, mods, x0=None, noise=None):
         x, flag = quiet(ES.trust_region_minimize, obj, obj.x0, st, callback=cb)
     except Timeout:
         return dict(x=[float(t) for t in obj.x0], flag=False, log=obj.log, obj=obj, settings=st, hang=True)
+    except Exception as ex:          # anything the solver raises is a failure of the property, not of the harness
+        return dict(x=[float(t) for t in obj.x0], flag=False, log=obj.log, obj=obj, settings=st, hang=True, raised=repr(ex))
     finally:
         signal.alarm(0)
         signal.signal(signal.SIGALRM, old)
@@ -220,6 +222,8 @@ def concl(case, out, mods):
     obj, st = out['obj'], out['settings']
     bad = []
     if out.get('hang'):
+        if out.get('raised'):
+            return [('exception', 'trust_region_minimize raised ' + out['raised'])]
         return [('hang', 'trust_region_minimize did not return within %d s (inner loop not terminating)' % SOLVE_LIMIT_S)]
     pts = [p for k, p in out['log'] if k == 'cb']
     allpts = pts + [out['x']]
@@ -299,9 +303,16 @@ def correspondence(ctx, model_ok):
 
     def bump(k):
         hist[k] = hist.get(k, 0) + 1
+    hangs = 0
     for c in cases:
         o = run_impl(c, mods)
         outs.append(o)
+        hangs += 1 if (o.get('hang') and not o.get('raised')) else 0
+        if hangs >= 2:                      # fail fast: two non-terminating solves are verdict enough
+            for tag, b in concl(c, o, mods):
+                ctx.fail('conclusion', 'trust_region_minimize: ' + b, case=dict({k: v for k, v in c.items()}, tag=tag, impl=dict(x=o['x'], flag=o['flag'], log=o['log'])), concrete=True)
+            cases = cases[:len(outs)]
+            break
         ncb = sum(1 for k, _ in o['log'] if k == 'cb')
         bump('exit:' + ('converged' if o['flag'] else 'failed') + (':incremental' if c['st']['use_incremental_objective'] else ''))
         bump('kind:' + c['kind'])
